@@ -103,7 +103,7 @@ HWStart ==
   /\ conns' = [conns EXCEPT ![E.h].last = now]                       \* Write: bumpActivity first
   /\ UNCHANGED <<cfg, q, sent, got, broken, nW, nR, nraw>>
   /\ UNCHANGED <<phase, hcfg, now, nextTick, reqs, parked, npend>>
-TWS == Is("WS") /\ IF E.h = 0 THEN WStart(E.c, E.k, E.pay) /\ E.c \notin DOMAIN reqs /\ HSame ELSE HWStart
+TWS == Is("WS") /\ IF E.h = 0 THEN WStartL(E.c, E.k, E.pay, E.n) /\ E.c \notin DOMAIN reqs /\ HSame ELSE HWStart
 
 \* a POST that was answered: the peer instance saw exactly this body (taken is set by its HS)
 HWOk ==
